@@ -10,6 +10,7 @@ import EaselModel.Buffer.TotalHist
 import EaselModel.Buffer.MemExact
 import EaselModel.Buffer.Stable
 import EaselModel.Buffer.Pinned
+import EaselModel.Buffer.Beyond
 import EaselModel.Buffer.MemRealLemmas  -- round4-mem
 import EaselModel.Buffer.MemRealStart  -- round 6
 import EaselModel.Buffer.OpenFileLemmas -- round4-open
@@ -446,6 +447,25 @@ example : CallerOkRun { b := openBuf .cmdpipe 64 srcW } [.setOffset 40, .setAnch
   (callerOkRunB_iff _ _).mp (by decide)
 example : (memRun (AState.init srcW) [.setOffset 40, .setAnchor 7, .setOffset 7, .getLine, .raiseAnchor 3, .setOffset 12, .getLine]).map
     (fun o => (o.st, o.bytes, o.off)) = [(.einval, [], 0), (.ok, [], 0), (.ok, [], 7), (.ok, [102], 9), (.ok, [], 9), (.ok, [], 12), (.eof, [], 12)] := by decide
+
+/-! ## Outside the contract, yet deterministic (round 6) -/
+
+/-- **`SetOffset` beyond the end of the input, ahead of the cursor, on a paged buffer that cannot `fseeko`** (stream, pipe, FILE
+    with an anchor set) is outside `Valid`, but its outcome does not depend on the page size or on what is loaded: from every
+    state reached so far it answers `eslEINVAL`, returns nothing, leaves the cursor at `max cur |src|` (the stream has been read
+    to its end) and the anchors as they were; the simulation continues from the specification state with the cursor moved
+    there — so `history_spec`'s conclusion extends to histories that contain such calls. (Whole-input modes: `eslEINVAL`,
+    nothing changes — `history_memory_exact`; unanchored FILE: the cursor is left at the requested offset — `Total.beyond_end_seek`.) -/
+theorem setoffset_beyond_end_deterministic (P o : Nat) (a : AState) (s : Sess) (r : R P a s) (hm : ¬ memMode s.b.mode)
+    (hnf : ¬ (s.b.mode = .file ∧ s.b.anchor = none)) (hlen : a.src.length < o) (hcur : a.cur < o) :
+    obsOf (.setOffset o) (s.step (.setOffset o)).1 (s.step (.setOffset o)).2 = ⟨.einval, [], max a.cur a.src.length⟩ ∧
+    R P { a with cur := max a.cur a.src.length, lastp := none } (s.step (.setOffset o)).2 :=
+  step_beyond_end_deterministic P o a s r hm hnf hlen hcur
+
+-- instances on the three paged openers, page sizes 1 and 4: the same answer, then end-of-file
+example : ∀ m ∈ [Mode.stream, Mode.cmdpipe, Mode.file], ∀ ps ∈ [1, 4],
+    (obsRun { b := openBuf m ps [97, 98, 10, 99, 100, 10, 101, 102, 10, 103] } [.read 1, .setAnchor 1, .setOffset 40, .getLine, .getOffset]).map
+      (fun o => (o.st, o.bytes, o.off)) = [(.ok, [97], 1), (.ok, [], 1), (.einval, [], 10), (.eof, [], 10), (.ok, [], 10)] := by decide
 
 /-! ## Stable anchors, exactly (round 3) -/
 
